@@ -301,15 +301,20 @@ class AsyncDatagramServer(_transports.AsyncBaseTransport, Generic[_T_Request, _T
         # To avoid that, we always use a new context. The performance cost is negligible.
         # See this functional test for a real situation:
         # test____serve_forever____too_many_datagrams_while_request_handle_is_performed
-        default_context.copy().run(
-            task_group.start_soon,
-            self.__client_coroutine,
-            datagram_received_cb,
-            client_ctx,
-            client_data,
-            task_group,
-            default_context,
-        )
+        try:
+            default_context.copy().run(
+                task_group.start_soon,
+                self.__client_coroutine,
+                datagram_received_cb,
+                client_ctx,
+                client_data,
+                task_group,
+                default_context,
+            )
+        except RuntimeError:
+            # The task group is shutting down (the server stops) and refuses new tasks:
+            # do not replace the exception (the cancellation) of the task which is ending.
+            client_data.mark_not_started()
 
     @staticmethod
     def __parse_datagram(
@@ -390,6 +395,11 @@ class _ClientData:
         if self.__state is not None:
             self.handle_inconsistent_state_error()
         self.__state = _ClientState.TASK_PENDING
+
+    def mark_not_started(self) -> None:
+        if self.__state is not _ClientState.TASK_PENDING:
+            self.handle_inconsistent_state_error()
+        self.__state = None
 
     def mark_done(self) -> None:
         if self.__state is not _ClientState.TASK_RUNNING:
